@@ -1,3 +1,158 @@
+(* C30 -- Text normalizers keep an exact offset map.
+   Only statements; every proof is `exact <lemma>` (or a closed computation for witnesses).
+   All theorems quantify over ALL oracles O (lowercase / decomposition / composition / Mn
+   tables and regex matches are arbitrary functions), all configurations n (incl. nested
+   sequences) and all texts t. *)
 From RV Require Import Prelude.
-From Normalize Require Import Model.
-Open Scope N_scope.
+From Normalize Require Import Model Normalize_proofs.
+Open Scope nat_scope.
+
+(* (1) one source offset per normalized byte *)
+Theorem C30_offsets_len_eq_bytes : forall O n t u offs,
+  normalize O n t = Ok u offs -> length offs = blen u.
+Proof. intros O n t u offs H. exact (chunks_length _ _ _ (normalize_chunks _ _ _ _ _ H)). Qed.
+
+(* (2) non-decreasing along the normalized text (regex matches must be ranges start <= end) *)
+Theorem C30_offsets_monotone : forall O n t u offs,
+  find_ranges O -> normalize O n t = Ok u offs -> monotone offs.
+Proof. intros O n t u offs HR H. exact (mono_idx _ (normalize_sorted _ _ _ _ _ HR H)). Qed.
+
+(* every offset is at most the input length (so Sequence's lookups are in range, below) *)
+Theorem C30_offsets_bounded : forall O n t u offs,
+  normalize O n t = Ok u offs -> Forall (fun o => o <= blen t) offs.
+Proof. intros O n t u offs H. exact (chunks_bounded _ _ _ (normalize_chunks _ _ _ _ _ H)). Qed.
+
+(* (3) the boundary clause as stated in the property is FALSE for the code as it is
+       (known finding F16), at each of the three identity-map sites: "é" = [233] (2 bytes),
+       offset 1 is not a char boundary *)
+Definition witness_oracles : oracles := {|
+  o_lower := fun c => [c]; o_canon := fun c => [c]; o_compat := fun c => [c];
+  o_is_mn := fun _ => false; o_compose := fun _ _ => None;
+  o_find := fun _ _ => Some [(2, 3)]       (* the match of "x" in "éx" *)
+|}.
+Theorem C30_offsets_are_boundaries_refuted :
+  (normalize witness_oracles (NBert false false) [233%N] = Ok [233%N] [0; 1] /\ ~ boundary [233%N] 1) /\
+  (normalize witness_oracles (NReplace 0 [121%N]) [233%N; 120%N] = Ok [233%N; 121%N] [0; 1; 2] /\
+     ~ boundary [233%N; 120%N] 1) /\
+  (normalize witness_oracles (NSeq []) [233%N] = Ok [233%N] [0; 1] /\ ~ boundary [233%N] 1).
+Proof.
+  repeat split; try (vm_compute; reflexivity);
+    intros H; apply boundaryb_true in H; vm_compute in H; discriminate.
+Qed.
+
+(* (3a) what does hold everywhere: at the first byte of every normalized char the offset is a
+        char boundary of the input *)
+Theorem C30_offsets_are_boundaries_at_char_starts_partial : forall O n t u offs,
+  normalize O n t = Ok u offs ->
+  forall q c, In (q, c) (indexed u) -> boundary t (nth q offs 0).
+Proof. intros O n t u offs H q c. exact (chunks_char_start _ _ _ q c (normalize_chunks _ _ _ _ _ H)). Qed.
+
+(* (3b) the full clause with exactly the known class excluded: every normalized byte carries a
+        boundary offset, or it is continuation byte k of a char copied verbatim from source
+        offset o and carries o + k *)
+Theorem C30_offsets_are_boundaries_excluding_F16 : forall O n t u offs,
+  normalize O n t = Ok u offs ->
+  forall p, p < length offs -> boundary t (nth p offs 0) \/ F16_class t u offs p.
+Proof. intros O n t u offs H. exact (chunks_excluding_F16 _ _ _ (normalize_chunks _ _ _ _ _ H)). Qed.
+
+(* ... and that class consists of violations only (the disjunction above is exclusive) *)
+Theorem C30_F16_class_is_never_a_boundary : forall t u offs p,
+  F16_class t u offs p -> ~ boundary t (nth p offs 0).
+Proof. exact F16_class_not_boundary. Qed.
+
+(* (3c) the full clause for configurations with an anchoring stage (Bert with an option set,
+        any Unicode form, any sequence containing one) ... *)
+Theorem C30_offsets_are_boundaries_anchored : forall O n t u offs,
+  anchored n = true -> normalize O n t = Ok u offs -> Forall (boundary t) offs.
+Proof.
+  intros O n t u offs Ha H. pose proof (normalize_anchored O n t Ha) as G. rewrite H in G. exact G.
+Qed.
+
+(* ... and for any configuration when the normalized text is ASCII *)
+Theorem C30_offsets_are_boundaries_ascii_output : forall O n t u offs,
+  normalize O n t = Ok u offs -> (forall c, In c u -> len8 c = 1) -> Forall (boundary t) offs.
+Proof. intros O n t u offs H. exact (chunks_ascii_output _ _ _ (normalize_chunks _ _ _ _ _ H)). Qed.
+
+(* (4) Sequence's offset map is the composition of its stages' maps *)
+Theorem C30_sequence_nil : forall O t, normalize O (NSeq []) t = Ok t (seq 0 (blen t)).
+Proof. reflexivity. Qed.
+
+Theorem C30_sequence_composes : forall O l n t,
+  normalize O (NSeq (l ++ [n])) t =
+  match normalize O (NSeq l) t with
+  | Ok m offs1 =>
+      match normalize O n m with
+      | Ok u next => Ok u (map (fun o => nth o offs1 (blen t)) next)
+      | Err => Err
+      | Panic => Panic
+      end
+  | Err => Err
+  | Panic => Panic
+  end.
+Proof. exact normalize_seq_snoc. Qed.
+
+(* the composition only ever looks up positions of the previous table, or the position just
+   past its end (mapped to the end of the source text) *)
+Theorem C30_sequence_lookups_in_range : forall O l n t m offs1 u next,
+  normalize O (NSeq l) t = Ok m offs1 -> normalize O n m = Ok u next ->
+  Forall (fun o => o <= length offs1) next.
+Proof.
+  intros O l n t m offs1 u next H1 H2.
+  rewrite (chunks_length _ _ _ (normalize_chunks _ _ _ _ _ H1)).
+  exact (chunks_bounded _ _ _ (normalize_chunks _ _ _ _ _ H2)).
+Qed.
+
+(* (5) no panic (slicing, indexing) when the regex engine returns well-formed matches *)
+Theorem C30_no_panic : forall O n t, find_wf O -> normalize O n t <> Panic.
+Proof. intros O n t H. exact (normalize_no_panic O n H t). Qed.
+
+(* (6) the executable oracles used by the check *)
+Theorem C30_prop_ok_reflects : forall c,
+  prop_ok c = true <->
+  match c_impl c with
+  | IOk u offs nbytes valid =>
+      valid = true /\ nbytes = blen u /\ length offs = nbytes /\ monotone offs /\
+      Forall (boundary (c_text c)) offs
+  | IErr => True
+  | IPanic => False
+  end.
+Proof. exact prop_ok_reflects. Qed.
+
+Theorem C30_prop_ok_modF16_sound : forall c,
+  prop_ok_modF16 c = true ->
+  match c_impl c with
+  | IOk u offs nbytes valid =>
+      valid = true /\ nbytes = blen u /\ length offs = nbytes /\ monotone offs /\
+      forall p, p < length offs ->
+        boundary (c_text c) (nth p offs 0) \/ F16_class (c_text c) u offs p
+  | IErr => True
+  | IPanic => False
+  end.
+Proof. exact prop_ok_modF16_sound. Qed.
+
+Theorem C30_model_passes_modF16 : forall c u offs,
+  tables_ok c = true -> model_of c = Ok u offs -> c_impl c = IOk u offs (blen u) true ->
+  prop_ok_modF16 c = true.
+Proof. exact model_passes_modF16. Qed.
+
+(* non-vacuity: the CLIP-style sequence of the crate's own test (NFC, lowercase, whitespace
+   simplification) on "İ  x" with the relevant table entries; an anchored configuration; the
+   hypotheses find_ranges / find_wf are satisfiable *)
+Definition example_oracles : oracles := {|
+  o_lower := fun c => if (c =? 304)%N then [105%N; 775%N] else [c];
+  o_canon := fun c => [c]; o_compat := fun c => [c];
+  o_is_mn := fun _ => false; o_compose := fun _ _ => None;
+  o_find := fun _ t => if list_eqb N.eqb t [105%N; 775%N; 32%N; 32%N; 120%N] then Some [(3, 5)] else Some []
+|}.
+Example C30_nonvacuous :
+  normalize example_oracles (NSeq [NUnicode Nfc; NBert true false; NReplace 0 [32%N]])
+            [304%N; 32%N; 32%N; 120%N]
+  = Ok [105%N; 775%N; 32%N; 120%N] [0; 0; 0; 2; 4] /\
+  anchored (NSeq [NUnicode Nfc; NBert true false; NReplace 0 [32%N]]) = true /\
+  find_ranges witness_oracles /\
+  normalize witness_oracles (NReplace 0 [121%N]) [233%N; 120%N] <> Panic.
+Proof.
+  split; [vm_compute; reflexivity|]. split; [reflexivity|]. split.
+  - intros p t ms H. inversion H; subst. repeat constructor.
+  - vm_compute. discriminate.
+Qed.
